@@ -50,6 +50,16 @@ def run(prop: str, tier: str, repo_root: str, evidence_dir=None, selftest=True) 
             if st.get("failed"):
                 for f in st["failed"]:
                     rep.undecided("SELFTEST", f)
+            # behaviour-preserving refactorings written by sub-agents: this property's check must stay silent
+            try:
+                from selftest.refactors import run_refactors
+
+                rf = run_refactors(prop, repo=repo_root)
+                rep.extra["refactoring_twins"] = rf
+                for fa in rf["false_alarms"]:
+                    rep.undecided("SELFTEST", "false alarm on a behaviour-preserving refactoring: " + fa)
+            except Exception as e:  # pragma: no cover
+                rep.extra["refactoring_twins"] = {"error": str(e)}
             # sensitivity measure (informational, never part of the verdict): a seeded sample of
             # generic single-point mutants of the functions that carry this property's obligations
             try:
